@@ -50,6 +50,7 @@ FUNCTIONS = [
     ('filter_process', 'dataflows.processors.filter_rows', ['process_resource']),
     ('deduper', 'dataflows.processors.deduplicate', ['deduper']),
     ('unpivot_rows', 'dataflows.processors.unpivot', ['unpivot_rows']),
+    ('concatenator', 'dataflows.processors.concatenate', ['concatenator']),
     ('delete_process', 'dataflows.processors.delete_fields', ['process_resource']),
     ('select_process', 'dataflows.processors.select_fields', ['process_resource']),
     ('rename_process', 'dataflows.processors.rename_fields', ['process_resource']),
